@@ -13,6 +13,7 @@ package c19
 
 import (
 	"context"
+	"encoding/json"
 	"errors"
 	"fmt"
 	"io"
@@ -23,6 +24,7 @@ import (
 	"net/http/httptest"
 	"net/http/httputil"
 	"net/url"
+	"reflect"
 	"strings"
 	"sync"
 	"sync/atomic"
@@ -31,6 +33,7 @@ import (
 	eth2api "github.com/attestantio/go-eth2-client/api"
 	eth2v1 "github.com/attestantio/go-eth2-client/api/v1"
 	eth2spec "github.com/attestantio/go-eth2-client/spec"
+	"github.com/attestantio/go-eth2-client/spec/electra"
 	eth2p0 "github.com/attestantio/go-eth2-client/spec/phase0"
 
 	"github.com/obolnetwork/charon/app/eth2wrap"
@@ -120,6 +123,7 @@ type hmethod struct {
 	Style    string
 	SigStyle string
 	Synced   bool // go-eth2-client requires a synced node for this endpoint
+	HasNOK   bool // own success predicate: a node that reports syncing ANSWERS (not ok) instead of failing
 	Path     string
 	HTTPVerb string                                                                 // Proxy only
 	call     func(ctx context.Context, cl eth2wrap.Client) (uint64, error)          // returns the uid found in the payload
@@ -151,6 +155,152 @@ func hproxyCall(ctx context.Context, cl eth2wrap.Client, c *hrun) (uint64, error
 	}
 
 	return uid, nil
+}
+
+// hsyncState is the node/syncing answer of a node: is_syncing is the scripted class, is_optimistic,
+// el_offline, sync_distance and head_slot vary per node. The node uid is kept in head_slot or, when
+// head_slot is 0, in sync_distance, so the returned answer identifies its node.
+func hsyncState(uid uint64, syncing bool) (eth2v1.SyncState, bool) {
+	v := mix(uid)
+	st := eth2v1.SyncState{IsSyncing: syncing, IsOptimistic: v&1 == 1, HeadSlot: eth2p0.Slot(uid)}
+	if syncing {
+		st.SyncDistance = []eth2p0.Slot{1, 1000, 250000}[(v>>1)%3] // head_slot stays non-zero: go-eth2-client treats (0, <=1) as synced
+	} else {
+		st.SyncDistance = []eth2p0.Slot{0, 0, 1, 37}[(v>>1)%4]
+		if (v>>3)%4 == 0 {
+			st.HeadSlot, st.SyncDistance = 0, eth2p0.Slot(uid)
+		}
+	}
+
+	return st, (v>>5)&1 == 1
+}
+
+func describeHSync(uid uint64, syncing bool) string {
+	st, el := hsyncState(uid, syncing)
+	return fmt.Sprintf("is_syncing=%v is_optimistic=%v el_offline=%v head_slot_zero=%v sync_distance_zero=%v", st.IsSyncing, st.IsOptimistic, el, st.HeadSlot == 0, st.SyncDistance == 0)
+}
+
+// the attestation data every node aggregates over (the real client verifies slot and data root)
+var haggData = func() *eth2p0.AttestationData { d := attData(7); d.Slot, d.Index = 7, 0; return d }()
+
+func haggRoot() eth2p0.Root {
+	r, err := haggData.HashTreeRoot()
+	if err != nil {
+		panic(err)
+	}
+
+	return r
+}
+
+func haggAttestation(uid uint64) *eth2spec.VersionedAttestation {
+	ver, empty, _ := aggVariant(uid)
+	bits := []byte{byte(uid) | 1, 0x01}
+	if empty {
+		bits = []byte{0x00, 0x01}
+	}
+	va := &eth2spec.VersionedAttestation{Version: ver}
+	att := &eth2p0.Attestation{AggregationBits: bits, Data: haggData, Signature: nodeSig(uid)}
+	switch ver {
+	case eth2spec.DataVersionPhase0:
+		va.Phase0 = att
+	case eth2spec.DataVersionAltair:
+		va.Altair = att
+	case eth2spec.DataVersionBellatrix:
+		va.Bellatrix = att
+	case eth2spec.DataVersionCapella:
+		va.Capella = att
+	case eth2spec.DataVersionDeneb:
+		va.Deneb = att
+	default:
+		cb := make([]byte, 8)
+		cb[0] = 1 << (uid % 8)
+		va.Electra = &electra.Attestation{AggregationBits: bits, Data: haggData, Signature: nodeSig(uid), CommitteeBits: cb}
+	}
+
+	return va
+}
+
+func haggJSON(uid uint64) (version, body string) {
+	va := haggAttestation(uid)
+	var (
+		b   []byte
+		err error
+	)
+	if va.Electra != nil {
+		b, err = json.Marshal(va.Electra)
+	} else {
+		att, _ := firstPhase0(va)
+		b, err = json.Marshal(att)
+	}
+	if err != nil {
+		panic(err)
+	}
+	version = strings.ToLower(va.Version.String())
+
+	return version, fmt.Sprintf(`{"version":"%s","data":%s}`, version, b)
+}
+
+func firstPhase0(va *eth2spec.VersionedAttestation) (*eth2p0.Attestation, bool) {
+	for _, a := range []*eth2p0.Attestation{va.Phase0, va.Altair, va.Bellatrix, va.Capella, va.Deneb} {
+		if a != nil {
+			return a, true
+		}
+	}
+
+	return nil, false
+}
+
+func init() {
+	hmethods = append(hmethods,
+		&hmethod{
+			Name: "NodeSyncing", Style: "provide", HasNOK: true, Path: "/eth/v1/node/syncing",
+			callCell: func(ctx context.Context, cl eth2wrap.Client, c *hrun) (uint64, error) {
+				r, err := cl.NodeSyncing(ctx, &eth2api.NodeSyncingOpts{})
+				if err != nil || r == nil || r.Data == nil {
+					return 0, err
+				}
+				uid := uint64(r.Data.HeadSlot)
+				if uid == 0 {
+					uid = uint64(r.Data.SyncDistance)
+				}
+				for _, n := range c.nodes {
+					if n.uid != uid {
+						continue
+					}
+					if want, _ := hsyncState(uid, n.spec.Outcome == hSyncing); *r.Data == want {
+						return uid, nil
+					}
+				}
+
+				return ^uint64(0), nil // not the answer of any one node
+			},
+		},
+		&hmethod{
+			Name: "AggregateAttestation", Style: "provide", Synced: true, Path: "/eth/v2/validator/aggregate_attestation",
+			callCell: func(ctx context.Context, cl eth2wrap.Client, _ *hrun) (uint64, error) {
+				r, err := cl.AggregateAttestation(ctx, &eth2api.AggregateAttestationOpts{Slot: 7, AttestationDataRoot: haggRoot(), CommitteeIndex: 0})
+				if err != nil || r == nil {
+					return 0, err
+				}
+				if r.Data == nil {
+					return ^uint64(0), nil
+				}
+				sig, err := r.Data.Signature()
+				if err != nil {
+					return ^uint64(0), nil
+				}
+				var uid uint64
+				for i := 0; i < 8; i++ {
+					uid |= uint64(sig[i]^byte(i*3)) << (8 * uint(i))
+				}
+				if !reflect.DeepEqual(r.Data, haggAttestation(uid)) {
+					return ^uint64(0), nil
+				}
+
+				return uid, nil
+			},
+		},
+	)
 }
 
 func init() {
@@ -193,7 +343,7 @@ var hmethods = []*hmethod{
 	{
 		Name: "SubmitAttestations", Style: "submit", Synced: true, Path: "/eth/v2/beacon/pool/attestations",
 		call: func(ctx context.Context, cl eth2wrap.Client) (uint64, error) {
-			return 0, cl.SubmitAttestations(ctx, &eth2api.SubmitAttestationsOpts{Attestations: []*eth2spec.VersionedAttestation{payAggregate(99, false).Data}})
+			return 0, cl.SubmitAttestations(ctx, &eth2api.SubmitAttestationsOpts{Attestations: []*eth2spec.VersionedAttestation{submittedAttestation()}})
 		},
 	},
 	{
@@ -251,6 +401,10 @@ func (n *hnode) ServeHTTP(w http.ResponseWriter, r *http.Request) {
 	isInit := path == "/eth/v1/node/syncing" || path == "/eth/v1/node/version"
 	c.mu.Lock()
 	dead := n.dead
+	// NodeSyncing as the call under test: the client's own probes and the call are the same request,
+	// so such cells script no endpoint-only behaviour (see normalizeForMethod); every answered
+	// node/syncing request counts as an answer of the endpoint.
+	isEndpoint := path == "/eth/v1/node/syncing" && c.meth.Name == "NodeSyncing" && !dead
 	c.mu.Unlock()
 	if dead {
 		if hj, ok := w.(http.Hijacker); ok {
@@ -321,10 +475,10 @@ func (n *hnode) ServeHTTP(w http.ResponseWriter, r *http.Request) {
 	case n.spec.Outcome == hAll503:
 		writeErr(http.StatusServiceUnavailable)
 	case path == "/eth/v1/node/syncing":
-		if n.spec.Outcome == hSyncing {
-			writeJSON(200, `{"data":{"head_slot":"1000","sync_distance":"5000","is_optimistic":false,"is_syncing":true,"el_offline":false}}`)
-		} else {
-			writeJSON(200, `{"data":{"head_slot":"1000","sync_distance":"0","is_optimistic":false,"is_syncing":false,"el_offline":false}}`)
+		st, elOffline := hsyncState(n.uid, n.spec.Outcome == hSyncing)
+		writeJSON(200, fmt.Sprintf(`{"data":{"head_slot":"%d","sync_distance":"%d","is_optimistic":%v,"is_syncing":%v,"el_offline":%v}}`, st.HeadSlot, st.SyncDistance, st.IsOptimistic, st.IsSyncing, elOffline))
+		if isEndpoint {
+			answered()
 		}
 	case path == "/eth/v1/node/version":
 		writeJSON(200, fmt.Sprintf(`{"data":{"version":"c19-node-%d/v1.0.0"}}`, n.uid))
@@ -346,6 +500,10 @@ func (n *hnode) ServeHTTP(w http.ResponseWriter, r *http.Request) {
 			case "AttestationData":
 				writeJSON(200, fmt.Sprintf(`{"data":{"slot":"7","index":"2","beacon_block_root":"%s","source":{"epoch":"0","root":"%s"},"target":{"epoch":"1","root":"%s"}}}`,
 					hex32(root(n.uid, 1)), hex32(root(n.uid, 2)), hex32(root(n.uid, 3))))
+			case "AggregateAttestation":
+				ver, body := haggJSON(n.uid)
+				w.Header().Set("Eth-Consensus-Version", ver)
+				writeJSON(200, body)
 			default:
 				writeJSON(200, `{}`)
 			}
@@ -675,14 +833,20 @@ func (c *hrun) drive() error {
 }
 
 // reachable: a gate is only ever hit when the client gets that far.
-func (n *hnode) gateReachable(warm bool) bool {
-	switch n.spec.Gate {
+func (n *hnode) gateReachable(warm bool) bool { return gateReachableSpec(n.spec, warm, n.run.meth) }
+
+func gateReachableSpec(s hnodeSpec, warm bool, m *hmethod) bool {
+	switch s.Gate {
 	case gInit:
-		return n.spec.Outcome != hDown && n.spec.Outcome != hDies && !warm
+		return s.Outcome != hDown && s.Outcome != hDies && !warm
 	case gEndpoint:
 		// an inactive client never gets to the endpoint; neither does a client whose node reports
-		// syncing (scripted only for endpoints that require a synced node)
-		return n.spec.Outcome != hDown && n.spec.Outcome != hDies && n.spec.Outcome != hAll503 && n.spec.Outcome != hSyncing
+		// syncing when the endpoint requires a synced node
+		if s.Outcome == hSyncing {
+			return m.HasNOK
+		}
+
+		return s.Outcome != hDown && s.Outcome != hDies && s.Outcome != hAll503
 	default:
 		return false
 	}
@@ -862,15 +1026,17 @@ func (c *hrun) afterCancel() {
 
 // ---------------------------------------------------------------------------------------------
 
-func htierCat(ns []hnodeSpec, warm bool) string {
-	var ok, hang, u, n, a int
+func htierCat(ns []hnodeSpec, warm bool, m *hmethod) string {
+	var ok, hang, nok, u, n, a int
 	for _, s := range ns {
-		gated := s.Gate != gNone && s.Hang && (&hnode{spec: s}).gateReachable(warm)
+		gated := s.Gate != gNone && s.Hang && gateReachableSpec(s, warm, m)
 		switch {
 		case gated:
 			hang++
 		case s.Outcome == hOK:
 			ok++
+		case s.Outcome == hSyncing && m.HasNOK:
+			nok++
 		case s.Outcome.cat() == catUnavailable:
 			u++
 		case s.Outcome.cat() == catOther:
@@ -884,6 +1050,8 @@ func htierCat(ns []hnodeSpec, warm bool) string {
 		return tierSuccess
 	case hang > 0:
 		return tierBlocked
+	case nok > 0:
+		return tierFailNOK
 	case a > 0:
 		return tierFailAmbi
 	case u > 0 && n > 0:
@@ -962,9 +1130,9 @@ func (c *hrun) evaluate() {
 		R.Inconclusive("case %d (http world): the call did not return within the watchdog (stall=%q cancel=%q handlers-blocked-at-release=%d)", c.kc.Idx, c.stallAt, c.cancelObs, c.pendingAtRelease)
 		return
 	}
-	primCat, fallCat := htierCat(spec.Prim, spec.Warm), "none"
+	primCat, fallCat := htierCat(spec.Prim, spec.Warm, c.meth), "none"
 	if len(spec.Fall) > 0 {
-		fallCat = htierCat(spec.Fall, spec.Warm)
+		fallCat = htierCat(spec.Fall, spec.Warm, c.meth)
 	}
 	cat := ""
 	switch {
@@ -1125,6 +1293,34 @@ func (c *hrun) evaluate() {
 			} else {
 				R.Count("http/returns/success-from-primary", 1)
 			}
+			if c.meth.HasNOK && all[r.uid] {
+				var x *hnode
+				for _, n := range c.nodes {
+					if n.uid == r.uid {
+						x = n
+					}
+				}
+				d := describeHSync(x.uid, x.spec.Outcome == hSyncing)
+				R.Seen("http_returned_answer_variants/"+c.meth.Name, d)
+				if x.spec.Outcome == hSyncing {
+					R.Count("http/returns/not-ok-answer", 1)
+					tier := c.nodes[:c.nP]
+					if x.fallback {
+						tier = c.nodes[c.nP:]
+					}
+					for _, o := range tier {
+						if o.spec.Outcome == hOK && !(o.spec.Hang && o.gateReachable(spec.Warm)) && !r.cancelled && c.stallAt == "" {
+							c.violation(&fired, "not-ok-answer-preempted-success", fmt.Sprintf("%s returned the not-ok answer of %s (%s) although %s answers successfully", c.meth.Name, x.label(), d, o.label()))
+							break
+						}
+					}
+				} else if !r.cancelled && c.stallAt == "" {
+					R.Count("http/predicate/NodeSyncing/acceptable-answer-returned", 1)
+					if strings.Contains(d, "is_optimistic=true") {
+						R.Count("http/predicate/NodeSyncing/acceptable-optimistic-answer-returned", 1)
+					}
+				}
+			}
 		} else if len(all) == 0 {
 			c.violation(&fired, "success-without-any-successful-node", fmt.Sprintf("%s returned nil although no node had answered the endpoint successfully", c.meth.Name))
 		}
@@ -1274,18 +1470,7 @@ func sampleHTTPCell(rng *rand.Rand) *hcellSpec {
 		j := rng.Intn(P)
 		spec.Prim[0], spec.Prim[j] = spec.Prim[j], spec.Prim[0]
 	}
-	if !m.Synced { // a syncing node still answers endpoints that need no synced node: script a plain failure instead
-		for i := range spec.Prim {
-			if spec.Prim[i].Outcome == hSyncing {
-				spec.Prim[i].Outcome = hEp503
-			}
-		}
-		for i := range spec.Fall {
-			if spec.Fall[i].Outcome == hSyncing {
-				spec.Fall[i].Outcome = hEp503
-			}
-		}
-	}
+	normalizeForMethod(spec, m)
 	attachProxyBody(rng, spec, m, P+F)
 	spec.Order = rng.Perm(P + F)
 	spec.Deadline = rng.Intn(3) == 0
@@ -1308,7 +1493,13 @@ func sampleHTTPCell(rng *rand.Rand) *hcellSpec {
 func unavailableHTTPCell(rng *rand.Rand, must hOutcome) *hcellSpec {
 	var m *hmethod
 	if must == hSyncing {
-		m = []*hmethod{hmethods[1], hmethods[2]}[rng.Intn(2)] // endpoints that require a synced node
+		var synced []*hmethod // endpoints that require a synced node
+		for _, hm := range hmethods {
+			if hm.Synced {
+				synced = append(synced, hm)
+			}
+		}
+		m = kit.Pick(rng, synced)
 	} else {
 		m = kit.Pick(rng, hmethods)
 	}
@@ -1347,10 +1538,35 @@ func unavailableHTTPCell(rng *rand.Rand, must hOutcome) *hcellSpec {
 		}
 		spec.Fall = append(spec.Fall, ns)
 	}
+	normalizeForMethod(spec, m)
 	attachProxyBody(rng, spec, m, P+F)
 	spec.Order = rng.Perm(P + F)
 
 	return spec
+}
+
+// normalizeForMethod replaces behaviours that make no sense for the endpoint under test.
+func normalizeForMethod(spec *hcellSpec, m *hmethod) {
+	fix := func(ns *hnodeSpec) {
+		if ns.Outcome == hSyncing && !m.Synced && !m.HasNOK {
+			ns.Outcome = hEp503 // a syncing node still answers endpoints that need no synced node: script a plain failure
+		}
+		if m.Name == "NodeSyncing" {
+			// the client's first-use probe and the call are the same request: no endpoint-only behaviour
+			if ns.Outcome == hEp503 || ns.Outcome == hEp400 || ns.Outcome == hEp404 {
+				ns.Outcome = hAll503
+			}
+			if ns.Gate == gEndpoint {
+				ns.Gate = gInit
+			}
+		}
+	}
+	for i := range spec.Prim {
+		fix(&spec.Prim[i])
+	}
+	for i := range spec.Fall {
+		fix(&spec.Fall[i])
+	}
 }
 
 func attachProxyBody(rng *rand.Rand, spec *hcellSpec, m *hmethod, nodes int) {
